@@ -20,6 +20,7 @@ CB_METHOD = {"none": None, "password": b"password", "publickey": b"publickey", "
 
 def oracle(ctx, tr):
     authed = False
+    granted = False
     nontrivial = False
     user_of_session = None
     for i, (st, r) in enumerate(zip(tr["steps"], tr["real"])):
@@ -68,6 +69,10 @@ def oracle(ctx, tr):
             ctx.dist("probe-of-approved-key")
         if r.get("wire"):
             ctx.disagree("wire: client/server views differ", L.describe(tr, i), None, r["wire"])
+        granted = granted or success
+        if r["authed"] and not granted:
+            ctx.fail("reported-authenticated-without-userauth-success", L.describe(tr, i),
+                     "is_authenticated() is true although no USERAUTH_SUCCESS was sent on this connection")
         authed = bool(r["authed"])
     return nontrivial
 
